@@ -425,6 +425,21 @@ class Ctx:
             self.discharged += n
             return False
         self.discharged += n + 1
+        if self.tier == 'thorough':
+            # independent re-check of the compiled theory with coqchk (lists every axiom of every loaded library)
+            self.obligations += 1
+            mod = 'SH.' + target_v[:-2].replace('/', '.')
+            with Lock('coq'):
+                rc, out, dt = sh('coqchk -silent -o -Q . SH %s 2>&1' % mod, cwd=COQ, timeout=3000)
+            m = re.search(r'\* Axioms:(.*?)\n\s*\n\* Constants', out, re.S)
+            axioms = [a.strip() for a in (m.group(1) if m else '?').split('\n') if a.strip()]
+            self.coverage['coqchk'] = {'rc': rc, 'axioms': axioms, 'seconds': round(dt, 1)}
+            bad = [a for a in axioms if a != '<none>' and a.split('.')[-1] not in AXIOM_ALLOW]
+            if rc != 0 or bad or 'type-in-type: <none>' not in out or 'unsafe (co)fixpoints: <none>' not in out or 'positivity is assumed: <none>' not in out:
+                self.broken.append({'kind': 'audit', 'name': 'coqchk %s' % mod, 'detail': out[-1500:]})
+                self.log('coqchk FAILED')
+                return False
+            self.discharged += 1
         return True
 
     def driver(self, component, fns, make_targets):
